@@ -190,8 +190,101 @@ def r13_4(prog: Program, chk: Check) -> None:
     chk.ob("R13.4", f"{m}::no-cache-reads", not hits, f"pyanalyze/{m}.py", f"{len(hits)} reads of typing's ForwardRef evaluation cache", nontrivial=False)
 
 
+# ------------------------------------------------------------------- R13.5
+def _form_of(expr: str) -> str:
+    """The outermost typing form of an annotation expression of the vocabulary."""
+    e = ast.parse(expr, mode="eval").body
+    if isinstance(e, ast.Constant) and isinstance(e.value, str):
+        return "forward reference string"
+    if isinstance(e, ast.BinOp):
+        return "X | Y"
+    if isinstance(e, ast.Subscript):
+        return ast.unparse(e.value).split(".")[-1] + "[...]"
+    return "bare name"
+
+
+def _annot_chunk(args):
+    part, nparts, depth2 = args
+    from ..model import Program as _P
+    from . import annot_model as amod
+
+    model = amod.AnnotModel(_P())
+    ns = amod.namespace()
+    classes: Dict[str, Dict[str, object]] = {}
+    n = 0
+
+    def note(key: str, bad: bool, detail) -> None:
+        c = classes.setdefault(key, {"n": 0, "bad": 0, "witness": []})
+        c["n"] += 1  # type: ignore[operator]
+        if bad:
+            c["bad"] += 1  # type: ignore[operator]
+            w = c["witness"]
+            w.append(detail)  # type: ignore[union-attr]
+            w.sort(key=lambda d: (len(d["annotation"]), repr(d)))  # type: ignore[union-attr]
+            del w[3:]  # type: ignore[arg-type]
+
+    for idx, (expr, flags) in enumerate(amod.vocabulary(depth2)):
+        if idx % nparts != part:
+            continue
+        try:
+            obj = eval(expr, dict(ns))  # CPython builds the runtime form; pyanalyze is not involved
+        except Exception:
+            continue  # not an annotation CPython accepts at run time: only one route exists
+        n += 1
+        form = _form_of(expr)
+        a, ea = model.via_ast(expr, ns, **flags)
+        s_, es = model.via_string(expr, ns, **flags)
+        r, er = model.via_runtime(obj, ns, **flags)
+        d = {"annotation": expr, "flags": flags, "ast": amod.describe(a), "string": amod.describe(s_), "runtime": amod.describe(r), "errors": {"ast": ea, "runtime": er}}
+        crashed = any(isinstance(x, tuple) for x in (a, s_, r))
+        note(f"{form}::no route raises", crashed, d)
+        if crashed:
+            continue
+        note(f"{form}::AST route == string route", not (a == s_ and bool(ea) == bool(es)), d)
+        note(f"{form}::AST route == runtime route", not (a == r), d)
+        note(f"{form}::an annotation is rejected by both routes or by neither", bool(ea) != bool(er), d)
+    return n, classes
+
+
+def r13_5(prog: Program, chk: Check) -> None:
+    import multiprocessing as mp
+    import os as _os
+
+    chk.rule(
+        "R13.5",
+        "annotation evaluation as a finite model: the AST route (annotations._Visitor, _type_from_value, _type_from_subscripted_value, _make_callable_from_value), the string route "
+        "(_eval_forward_ref) and the runtime route (_type_from_runtime, _value_of_origin_args, _callable_args_from_runtime, make_type_var_value) with their shared helpers are "
+        "interpreted from their AST on a vocabulary of ~800 annotation expressions (classes, Optional / Union / |, old and new style generics, the tuple forms, Literal, type[], "
+        "Callable, Annotated, Final / ClassVar, Required / NotRequired / ReadOnly, Unpack, TypeGuard / TypeIs, NewType, TypeVar, forward-reference strings, nested one level); the "
+        "runtime object is built by CPython from the same expression; the three resulting values are equal (unions compare as sets, as MultiValuedValue.__eq__ does) and an "
+        "annotation is rejected by all routes or by none",
+        floor=20,
+    )
+    selftest = bool(_os.environ.get("VERIF_SELFTEST"))
+    procs = 2 if selftest else min(16, _os.cpu_count() or 1)
+    with mp.get_context("fork").Pool(procs) as pl:
+        results = pl.map(_annot_chunk, [(i, procs * 2, True) for i in range(procs * 2)])
+    total = 0
+    merged: Dict[str, Dict[str, object]] = {}
+    for n, classes in results:
+        total += n
+        for k, c in classes.items():
+            m = merged.setdefault(k, {"n": 0, "bad": 0, "witness": []})
+            m["n"] += c["n"]  # type: ignore[operator]
+            m["bad"] += c["bad"]  # type: ignore[operator]
+            m["witness"] = sorted(list(m["witness"]) + list(c["witness"]), key=lambda d: (len(d["annotation"]), repr(d)))[:3]  # type: ignore[arg-type]
+    chk.model_evaluations += total * 3
+    chk.analysed["annotation_model"] = {"annotations": total, "routes": 3}
+    site = prog.site("annotations", prog.func("annotations", "_value_of_origin_args"))
+    for k, c in sorted(merged.items()):
+        wit = c["witness"]
+        chk.ob("R13.5", f"annotations::route-model::{k}", int(c["bad"]) == 0, site,  # type: ignore[arg-type]
+               f"{c['n']} annotations, {c['bad']} failing" + (f"; smallest: {wit[0]}" if wit else ""), witness=wit)  # type: ignore[index]
+
+
 def run(prog: Program, chk: Check) -> None:
     guard(chk, r13_1, prog, chk)
     guard(chk, r13_2, prog, chk)
     guard(chk, r13_3, prog, chk)
     guard(chk, r13_4, prog, chk)
+    guard(chk, r13_5, prog, chk)
